@@ -352,6 +352,8 @@ func runOne(w *cl.World, c *Case, base string) (*Result, error) {
 			before := n.Chain.VerifCasper().VerifCachedVerifications()
 			storedBefore := r.storedSet(n)
 			orphan, err := n.Chain.ProcessBlock(b)
+			// let the background loop finish what this block queued (it reads the store concurrently)
+			n.Chain.VerifCasper().VerifSettle()
 			if len(pending) > 0 {
 				// authVerificationLoop applies the cached messages of a checkpoint in the background when the
 				// first block after it is connected
@@ -371,7 +373,7 @@ func runOne(w *cl.World, c *Case, base string) (*Result, error) {
 					for i := 0; i < 600 && n.Chain.VerifCasper().VerifCachedVerifications() > want; i++ {
 						time.Sleep(5 * time.Millisecond)
 					}
-					time.Sleep(3 * time.Millisecond)
+					n.Chain.VerifCasper().VerifSettle()
 				}
 			}
 			st := Step{Orphan: orphan, Err: err != nil}
